@@ -26,7 +26,7 @@ RULE += ('; also: coroutine and callable-object callbacks outliving their step, 
 ASSUMPTIONS = ['samples in ProcessListener callbacks are not part of the statement (recorded only)',
                'nested execution relies on nest_asyncio as configured by plumpy.set_event_loop_policy()']
 REQUIRED = ['samples/step', 'samples/hook', 'samples/callback', 'samples/outside', 'concurrent_runs', 'nested_runs', 'children', 'where/after-await',
-            'where/after-launch', 'where/after-nested', 'where/after-inline', 'outside_runner', 'parent_controlled_by_child', 'cleanup_callbacks', 'bound_method_callbacks', 'where/after-collect', 'own_waiting_state_samples', 'falsy_processes', 'where/after-collect-own', 'equal_process_pairs', 'absorbed_timeouts']
+            'where/after-launch', 'where/after-nested', 'where/after-inline', 'outside_runner', 'parent_controlled_by_child', 'cleanup_callbacks', 'bound_method_callbacks', 'where/after-collect', 'own_waiting_state_samples', 'falsy_processes', 'where/after-collect-own', 'equal_process_pairs', 'absorbed_timeouts', 'children_with_the_id_of_their_parent', 'nested_runs_from_a_hook']
 BOUNDS = {'quick': '150 random concurrent sets + 24 nested scenarios', 'thorough': '1500 random concurrent sets + 200 nested scenarios'}
 TIMEOUT = {'quick': 900, 'thorough': 3600}
 
@@ -69,7 +69,7 @@ def _rand_script(rng, depth, allow_nested, name_hint=''):
         segs.append(ops)
     if any(op[0] == 'launch' for seg in segs for op in seg):
         segs[-1].append(['await_children'])
-    return {'segments': segs, 'sync': rng.random() < 0.3, 'falsy': rng.random() < 0.25, 'all_equal': rng.random() < 0.5}
+    return {'segments': segs, 'sync': rng.random() < 0.3, 'hook_nested': bool(allow_nested and depth == 3 and rng.random() < 0.4), 'falsy': rng.random() < 0.25, 'all_equal': rng.random() < 0.5, 'same_pid': rng.random() < 0.3}
 
 
 def gen_cases(tier, seed):
@@ -155,6 +155,9 @@ def _obs(log, outside):
     # processes that compare equal to their parent (one nested / stepped inline / launched inside a step of the other)
     obs['equal_process_pairs'] = sum(1 for n in names if '.' in n and n in curprog.PROCS and n.rsplit('.', 1)[0] in curprog.PROCS
                                      and curprog.PROCS[n] == curprog.PROCS[n.rsplit('.', 1)[0]])
+    obs['children_with_the_id_of_their_parent'] = sum(1 for n in names if '.' in n and n in curprog.PROCS and n.rsplit('.', 1)[0] in curprog.PROCS
+                                                      and curprog.PROCS[n].pid == curprog.PROCS[n.rsplit('.', 1)[0]].pid)
+    obs['nested_runs_from_a_hook'] = sum(1 for _n, kind, where, _ok, _c in log if kind == 'hook' and where == 'on_running:after-nested-run')
     obs['cleanup_callbacks'] = sum(1 for _n, kind, where, _ok, _c in log if kind == 'callback' and where == 'cleanup')
     obs['bound_method_callbacks'] = sum(1 for _n, kind, where, _ok, _c in log if kind == 'callback' and 'bound-method-of-' in where and not where.endswith('self'))
     obs['outside_runner'] = sum(1 for w, _c in outside if w == 'runner-after')
